@@ -128,6 +128,15 @@ pub fn run(a: &Args, out: &mut Out) {
         let (fa, fb) = (fq12_from(&xa), fq12_from(&xb));
         match k % 10 {
             0 | 1 => {
+                // every fifth multiplication: jointly sparse operands (the same F_q^4 or F_q^2 coefficient vanishes in both)
+                let (xa, xb) = if k % 50 < 10 && k % 10 == 1 {
+                    let (mut ta, mut tb) = (xa.clone(), xb.clone());
+                    let (lo, hi) = if rng.gen() { let l = 128 * rng.gen_range(0..3); (l, l + 128) } else { let l = 64 * rng.gen_range(0..6); (l, l + 64) };
+                    for x in ta[lo..hi].iter_mut() { *x = 0; }
+                    for x in tb[lo..hi].iter_mut() { *x = 0; }
+                    (ta, tb)
+                } else { (xa.clone(), xb.clone()) };
+                let (fa, fb) = (fq12_from(&xa), fq12_from(&xb));
                 out.call("x.fq12.mul", json!({"a": b(&xa), "b": b(&xb)}), || outs! {"out" => b(&(fa * fb).to_slice()), "sqr" => b(&fa.squared().to_slice())});
             }
             2 => {
@@ -185,6 +194,14 @@ pub fn run(a: &Args, out: &mut Out) {
                     }
                     t
                 } else { yb };
+                // jointly sparse operands: the SAME F_q^2 coefficient (or the same F_q limb) vanishes in both
+                let (ya, yb) = if k % 20 == 17 {
+                    let (mut ta, mut tb) = (ya.clone(), yb.clone());
+                    let (lo, hi) = match rng.gen_range(0..4) { 0 | 1 => (64, 128), 2 => (0, 64), _ => { let l = 32 * rng.gen_range(0..4); (l, l + 32) } };
+                    for x in ta[lo..hi].iter_mut() { *x = 0; }
+                    for x in tb[lo..hi].iter_mut() { *x = 0; }
+                    (ta, tb)
+                } else { (ya, yb) };
                 let (ga, gb) = (fq4_from(&ya), fq4_from(&yb));
                 out.call("x.fq4.mul", json!({"a": b(&ya), "b": b(&yb)}), || {
                     outs! {"out" => b(&(ga * gb).to_slice()), "sqr" => b(&ga.squared().to_slice()), "inv" => opt_bytes(ga.inverse().map(|x| x.to_slice())),
